@@ -73,3 +73,78 @@ for _p in range(3):
     _f = _mk_composed(_p)
     globals()[_f.__name__] = _f
 del _f, _p
+
+
+# ---------------------------------------------------------------- a branch that is resumed IN-PROCESS re-traverses its completed operations
+from harness import exec_world as XW  # noqa: E402
+
+
+def _mk_inprocess(psel):
+    def lem(a: int, first: int, nested: bool):
+        """
+        pre: 0 <= first < 2
+        post: True
+        """
+        from aws_durable_execution_sdk_python.config import Duration
+
+        be = Backend(page_size=_C02.PAGE_SIZES[psel], empty_pages=(psel == 1))
+        runs = {"X": 0, "Y": 0, "Z": 0}
+        seen = []
+
+        def handler(event, ctx):
+            XW.World(choices=[first], late=[1])   # branch 1 is long-running user code: it ends only when nothing else can happen
+
+            def branch_a(c):
+                def x(s):
+                    runs["X"] += 1
+                    return a
+
+                def y(s):
+                    runs["Y"] += 1
+                    return (a, "y")
+                if nested:
+                    vx = c.run_in_child_context(lambda c2: c2.step(x, name="X"), name="inner")
+                else:
+                    vx = c.step(x, name="X")
+                c.wait(Duration(1), name="W")      # parks the branch; the timer resumes it in the same invocation
+                vy = c.step(y, name="Y")
+                return [vx, vy]
+
+            def branch_b(c):
+                def z(s):
+                    runs["Z"] += 1
+                    return "z"
+                return c.step(z, name="Z")
+
+            r = ctx.parallel([branch_a, branch_b], name="PAR")
+            seen.append([it.result for it in r.all])
+            return 1
+
+        # the backend fires a due timer as soon as it is asked again (the resubmission's refresh checkpoint)
+        orig = be.checkpoint
+
+        def checkpoint(arn, token, updates, client_token):
+            if not updates:
+                be.advance()
+            return orig(arn, token, updates, client_token)
+
+        be.checkpoint = checkpoint
+        res = run_execution(handler, be, max_invocations=3)
+        h.check(res.deadlock is None and res.final is not None and res.final["Status"] == "SUCCEEDED", "execution did not finish")
+        if len(res.outputs) == 1:
+            h.reach("single_invocation")
+        h.check(runs == {"X": 1, "Y": 1, "Z": 1}, "a completed step ran again when its branch was resumed in the same invocation")
+        h.check(seen[-1] == [[a, (a, "y")], "z"], "branch results")
+        h.end()
+
+    lem.__name__ = lem.__qualname__ = f"composed_inprocess_resume_page{psel}"
+    return h.lemma(timeout=600, thorough_timeout=1800, funcs=_C02.FUNCS + ["concurrency.executor.*"], reach=("end", "single_invocation"),
+                   tier="quick" if psel == 1 else "thorough",
+                   bounds="composed world + thread-pool model: parallel([A: step X (optionally inside a nested context); wait 1s; step Y] , [B: long-running step Z]); the "
+                          f"timer resumes A in the same invocation; checkpoint responses page size {_C02.PAGE[psel]}; which branch starts first is solver-chosen")(lem)
+
+
+for _p in range(3):
+    _f = _mk_inprocess(_p)
+    globals()[_f.__name__] = _f
+del _f, _p
